@@ -146,6 +146,20 @@ static bool make_case(Rng& rng, int family, Fn& F, double& lo, double& hi)
 			F.linear = true;
 			break;
 		}
+		case 11: {	 // steep power law whose values span hundreds of decades inside one bracket: x^p - c with hi^p ~ 1e100..1e200 and c ~ 1e-200..1e-20
+					 // (all values stay normal doubles: nearer the underflow threshold x^p - c degenerates into a step)
+			double p	= rng.uni(20.0, 60.0);
+			double hi_p = rng.uni(100.0, 200.0), c_p = -rng.uni(20.0, 200.0);
+			hi			= std::pow(10.0, hi_p / p);
+			double r	= std::pow(10.0, c_p / p);
+			lo			= r / rng.loguni(2.0, 1e3);
+			double c	= std::pow(r, p);
+			F.name		= "x^p-c (steep, values over hundreds of decades)";
+			F.pars		= {p, c};
+			F.f			= [p, c](double x) { return std::pow(x, p) - c; };
+			F.root		= r;
+			break;
+		}
 		default: {	 // concave/convex with inflection: x|x|^q + b(x-r) style: sign(x-r)|x-r|^q
 			double r = rng.mag(1e-2, 1e2), q = rng.uni(0.3, 3.0);
 			double w1 = rng.loguni(1e-3, 1e3), w2 = rng.loguni(1e-3, 1e3);
@@ -161,7 +175,7 @@ static bool make_case(Rng& rng, int family, Fn& F, double& lo, double& hi)
 	if(!(lo < hi))
 		return false;
 	double fl = F.f(lo), fh = F.f(hi);
-	if(!std::isfinite(fl) || !std::isfinite(fh) || !(fl * fh < 0.0))
+	if(!std::isfinite(fl) || !std::isfinite(fh) || fl == 0.0 || fh == 0.0 || ((fl < 0.0) == (fh < 0.0)))
 		return false;
 	return true;
 }
@@ -170,7 +184,7 @@ static void root_case(Rng& rng, uint64_t)
 {
 	Fn F;
 	double lo, hi;
-	int family = rng.irange(0, 10);
+	int family = rng.irange(0, 11);
 	if(!make_case(rng, family, F, lo, hi))
 	{
 		count_outside("returned-point-inside-bracket");
@@ -179,7 +193,7 @@ static void root_case(Rng& rng, uint64_t)
 	// Root finding is invariant under a rescaling of the function values: a quarter of the cases multiply f by 1e-300..1e-100 or 1e100..1e300
 	// (values near the root then lie far below 1e-150, where products of two function values underflow, or far above 1e150, where they overflow)
 	double fscale = 1.0;
-	if(rng.coin(0.25))
+	if(family != 11 && rng.coin(0.25))
 	{
 		fscale = rng.coin(0.7) ? std::pow(10.0, -rng.uni(100, 300)) : std::pow(10.0, rng.uni(100, 300));
 		auto g	   = F.f;
